@@ -559,16 +559,21 @@ def _with_failure(vlist, elist, fail):
 
 
 def _sentinel(aurel, fd, world, kw, bad, probe, opi):
+    """An ordinary call on another table, with DEFAULT AurelCore options
+    (nothing of the history's rel_kwargs is passed): predefined estimators
+    and a Lambda-dependent built-in on full inputs."""
     names = ['mean', 'max', 'min', 'median', 'std', 'maxabs', 'x0y0z0']
     key = sorted(k for k in world.data if np.ndim(world.data[k]) == 3)
     if not key:
         return
     key = key[0]
-    a0 = np.array(world.data[key])
-    tab = {'it': [0, 1], key: [a0 * 1.5 + 0.25, a0 - 0.5]}
+    tab = {'it': [0, 1]}
+    for k in sorted(world.data):
+        a0 = np.array(world.data[k])
+        tab[k] = [a0, a0 + (0.01 if k == key else 0.0)]
     try:
-        out = aurel.over_time(tab, fd, vars=[], estimates=list(names),
-                              verbose=False, **kw)
+        out = aurel.over_time(tab, fd, vars=['rho_n_fromHam'],
+                              estimates=list(names), verbose=False)
     except Exception as e:  # noqa: BLE001
         bad(f'sentinel:raised:{type(e).__name__}', 'an ordinary over_time '
             f'call after the history raised {type(e).__name__}: {e}', opi)
@@ -585,6 +590,22 @@ def _sentinel(aurel, fd, world, kw, bad, probe, opi):
                     f'on another table after the history: {key}_{en} row {r} '
                     f'= {got!r}, {en}() of the array = {want!r}', opi)
                 return
+    # the built-in, against an object with default options on the same data
+    import aurel.core as core
+    for r in range(2):
+        ref = core.AurelCore(fd, verbose=False)
+        for k in sorted(world.data):
+            ref.data[k] = np.array(tab[k][r])
+        ref.freeze_data()
+        want = ref['rho_n_fromHam']
+        d = compare.differ(np.asarray(out['rho_n_fromHam'][r]), want, 1e-9,
+                           1e-12 * max(1.0, 1.0 / world.h ** 2))
+        if d is not None:
+            bad('sentinel:value:rho_n_fromHam', 'an ordinary over_time call '
+                'with default options after the history: rho_n_fromHam row '
+                f'{r} differs from an object with default options: {d[1]}',
+                opi)
+            return
 
 
 def _check_table(run, cfg, worlds, order, tkey, tval, data, bad, tr):
